@@ -48,6 +48,18 @@ theorem gen_crs_seed (mk : Nat → Stream) (st : Stream) (cur mult : Nat) (globS
 theorem gen_crs_shared_without_multiplier (mk : Nat → Stream) (st : Stream) (cur : Nat) (globS : Stream) (globCur : Nat) :
     (check_random_state mk (globObj globS globCur) (absSeed (.inst st cur)) none).1.callers = true := rfl
 
+/-- **one caller-owned generator handed to two objects**: the first object's call leaves the instance where it was, so a second
+object constructed with the same instance derives the same per-call generator — whatever the global generator did in between.
+(What the C06 check observes on budget managers and stream strategies with a shared `RandomState`.) -/
+theorem gen_crs_second_object (mk : Nat → Stream) (st : Stream) (cur mult : Nat) (g g' : Stream) (c c' : Nat) :
+    (check_random_state mk (globObj g' c')
+        (absSeed (.inst st (cur + (check_random_state mk (globObj g c) (absSeed (.inst st cur)) (some mult)).2))) (some mult)).1 =
+      (check_random_state mk (globObj g c) (absSeed (.inst st cur)) (some mult)).1 := by
+  have h0 : (check_random_state mk (globObj g c) (absSeed (.inst st cur)) (some mult)).2 = 0 :=
+    (gen_crs_private mk (.inst st cur) mult g c rfl).2
+  rw [h0, Nat.add_zero]
+  exact gen_crs_deterministic mk (.inst st cur) mult g' g c' c rfl
+
 /-- non-vacuity -/
 example : (check_random_state (fun n i => n + i) ⟨fun i => 100 + i, true, 0⟩ (.int 5) (some 3)).1.stream 0 = 15 := by decide
 
